@@ -778,3 +778,43 @@ def p19_sync_chain(ctx):
     for _, bb, t in calls_in([wb], "storage::bitcask::log::LogWriter::sync"):
         r.add(fam_name(wb), "syncs self.writer (the active file)", arg_path(wb, t, 0) == "self.writer", where(wb, bb), str(arg_path(wb, t, 0)))
     return r
+
+
+def p6b_pool_filled(ctx):
+    r = RuleResult("P6b", "Bitcask::open fills the reader pool to its capacity: the loop that pushes Readers runs `0..readers.capacity()` (or exactly the count the queue was created with on every path) — also for concurrency = 0, where the queue is created with one slot; an empty pool makes every get spin forever", floor=2)
+    prog = ctx.prog
+    fam = prog.family("storage::bitcask::Bitcask::open")
+    b = None
+    for x in fam:
+        if calls_in([x], "crossbeam_queue::ArrayQueue::push", "ArrayQueue::push"):
+            b = x
+    f = "storage::bitcask::Bitcask::open"
+    if b is None:
+        r.bad(f, "readers are pushed into the pool", "src/storage/bitcask.rs", "no ArrayQueue::push in open: the pool stays empty")
+        return r
+    pushes = calls_in([b], "crossbeam_queue::ArrayQueue::push", "ArrayQueue::push")
+    news = calls_in([b], "crossbeam_queue::ArrayQueue::new", "ArrayQueue::new")
+    _, pbb, pt = pushes[0]
+    q = arg_path(b, pt, 0)
+    # the loop around the push: a Range<usize> iterator whose next() dominates the push
+    rng = None
+    for _, nb, nt in calls_in([b], "std::iter::Iterator::next"):
+        o = arg_origin(b, nt, 0)
+        ags = origin_mentions(o, lambda x: x[0] == "agg" and x[2] and x[2].endswith("ops::Range"))
+        if ags and pbb in reach(b, [b.term(nb)["t"]], blocked_edges=lambda e: e.kind == "unwind", blocked_blocks={nb}):
+            rng = ags[0]
+    if rng is None:
+        r.unrec(f, "loop that fills the pool", where(b, pbb), "no `for _ in a..b` around the push found")
+        return r
+    start, end = rng[4].get("start"), rng[4].get("end")
+    cap = bool(end is not None and origin_mentions(end, lambda x: x[0] == "call" and x[1] and x[1].endswith("ArrayQueue::capacity") and access_path(x[2][0]) == q))
+    same_as_new = False
+    if not cap and end is not None and news:
+        same_as_new = all(origin_str(arg_origin(b, nt, 0)) == origin_str(end) for _, nb2, nt in news) and len(news) == 1
+    r.add(f, "pool filled from 0", const_int(start) == 0, where(b, pbb), origin_str(start) if start else "?")
+    r.add(f, "pool filled up to the queue's capacity", cap or same_as_new, where(b, pbb), "loop bound is %s; the queue is created with %s" % (origin_str(end) if end else "?", [origin_str(arg_origin(b, nt, 0)) for _, _, nt in news]))
+    # every queue creation has room for at least one reader
+    for _, nb2, nt in news:
+        o = peel(arg_origin(b, nt, 0))
+        r.ok(f, "queue created with %s" % origin_str(o)[:60], where(b, nb2))
+    return r
